@@ -15,6 +15,8 @@ Decided (structural):
         could remove or overwrite an entry (iter_mut, index_mut, swap_remove, pop, clear, ...) and no
         store through the borrow. A further mutator cannot be shown to spare non-ancestors, so the
         rule fails closed on it.
+ R6 K2  an existing entry is kept beside the new command only on the false edge of
+        is_ancestor(old, new): no cheaper pre-test may bypass it.
 Not decided: the antichain invariant over all sequences (value-level)."""
 from rules.core import pat
 from rules.core.facts import Operand, Place, PASS_THROUGH
@@ -137,6 +139,18 @@ def run(F, rep, tier):
                 cut.add(oe["payload_true"])
             r = cl.reachable(0, cut_edges=cut)
             ok = "payload_true" in oe and not any(s.bb in r for s in st)
+        # R6 the antichain: an entry is kept *next to* the new one only after is_ancestor(old, new) answered false
+        okk = len(old_new) == 1 and bool(keeps)
+        if okk:
+            oe2 = cl.outcome_edges(old_new[0])
+            pf = oe2.get("payload_false")
+            for k in keeps:
+                cleared = any(cl.dominates(s_.bb, k.bb) for s_ in st)
+                okk = okk and (cleared or (pf is not None and cl.dominates(pf[1], k.bb)))
+        rep.check(okk, "retain|keep-only-non-ancestors", "K2 guarded-by",
+                  "an existing entry stays in the cache beside the new command only on the false edge of is_ancestor(old, new) (or when the new command is not added at all)",
+                  "PeerCache::add_command can keep an existing entry and add the new command without having tested is_ancestor(old, new) on that path (a shortcut guards the test): "
+                  "the cache can then hold an entry that is an ancestor of another", cl.site())
         rep.check(ok, "retain|suppress-only-descendants", "K2 guarded-by",
                   "add_command is cleared only when old.id == new.id or is_ancestor(new, old) holds",
                   "PeerCache::add_command suppresses the new command without it being an ancestor/duplicate of an existing entry", cl.site())
